@@ -70,7 +70,7 @@ CLAIMS = {
                 'every acknowledged sample are compared with the model. Labels.tla validates, by TLC, the trace of (label set, permutation, protocol) -> fingerprint/document '
                 'recorded from the real parsers: fingerprint is a function of the sanitised set, no collision in the universe, document decodes (encoding/json and '
                 'chsql JSONExtractKeysAndValues) to the set.',
-        'note': 'hash injectivity only on the enumerated universe; writer and reader share the process zone in the replay; failed INSERT = retries exhausted.',
+        'note': 'hash injectivity only on the enumerated universe; writer and reader share the process zone in the replay; failed INSERT = retries exhausted. No open finding: the cache deviations (set before insert, key without the sample type) are repaired by eb377cd / f754ca5 and stay in the models as mutations TLC must refute; the end-to-end composition Qryn.tla (extra check X02) re-checks AckedReadable for all four signals.',
         'technique': 'TLA+ model checking (TLC) + replay of TLC histories through writer->store->reader + TLC trace validation of recorded fingerprints',
         'design_ref': '5/C04',
     },
@@ -175,7 +175,7 @@ CLAIMS = {
         'text': 'TraceQLSem.tla defines what a TraceQL query describes (Eval) and, planner by planner, the plan clickhouse_transpiler builds (PlanEval with named deviation rules for the code as written); TLC checks '
                 'on 58k (thorough 1.09M) query x database cases that the plan as designed conforms to the definition. The cases are concretised (hostile strings, numbers, times), stored directly or through the '
                 'real Zipkin/OTLP routes and queried through the REAL /api/search and /api/v2/search/tags|tag/x/values; every generated statement must run on chsql and the answer must be one Eval accepts.',
-        'note': 'all 8 findings (+1 uncovered behind them) repaired by fix: commits; CODE_DEVIATIONS = [distinct]; no open finding.',
+        'note': 'all 8 first-pass findings (+1 uncovered behind them) repaired by fix: commits; the evaluator (portioned execution of expensive requests) is part of the spec and the binding; one open finding: a portion that answers `limit` traces moves the window start of the next portion to the oldest kept trace (unsound optimisation, upstream decision).',
         'technique': 'TLA+ model checking (TLC exhaustive layers + TLC-evaluated seeded sample) + replay through the real reader and writer routes over the reference interpreter',
         'design_ref': '5/C11',
     },
@@ -185,7 +185,7 @@ CLAIMS = {
                 'check each descriptor over all windows, row timestamps, row types and reader/writer zones within 3 days at 15 min resolution for Leak (admitted outside the window / other signal) and Miss '
                 '(in-window row rejected by a date or type bound, given the writer\'s date rule). Every candidate witness is replayed on the REAL endpoint with boundary rows, comparing rows offered/admitted per '
                 'scan (chsql) and the HTTP response.',
-        'note': 'all 17 signatures repaired by six fix: commits (UTC day bounds, upper bounds without the lower-bound margin, Tempo tag index written under the UTC day, exact LogQL log window); the driver observes the writer date rule; tail not driven.',
+        'note': 'all 17 signatures repaired by six fix: commits (UTC day bounds, upper bounds without the lower-bound margin, Tempo tag index written under the UTC day, exact LogQL log window); the driver observes the writer date rule; sub-second windows on every family (TsMiss), which found and repaired 8eaaa87 (numeric time= cut to seconds); the tail is driven by the extra check X01.',
         'technique': 'TLA+/TLC with constants generated from the executed SQL + counterexample replay + scan-level observation',
         'design_ref': '5/C13',
     },
@@ -204,7 +204,7 @@ CLAIMS = {
                 '(2-3 functions, depth <= 3-4 incl. recursion, shared frames and empty stacks, <= 3-4 samples, 1-2 sample types, <= 3 profiles): mechanism = definition, conservation per node and type, root sums, '
                 'merge commutative/associative and equal to the build of the bag union, layout nests. Every TLC state is concretised to a real pprof, pushed through the REAL multipart and binary parsers and the '
                 'REAL reader MergeTrie/BFS in all profile orders and row orders and compared; a seeded sample of reader outputs is validated by TLC.',
-        'note': 'node-id hashing modelled as injective; open finding: a sample with an empty stack is counted in values_agg but contributes to no root total.',
+        'note': 'node identity = hash(parent, function) with the level clamp as a spec constant (KeyInjective), stacks on both sides of the clamp, stretching to real depths proved to commute on the small cases; open finding: a sample with an empty stack is counted in values_agg but contributes to no root total (format decision).',
         'technique': 'TLA+ model checking (TLC) + exhaustive model-based case replay + TLC validation of recorded observations',
         'design_ref': '5/C16',
     },
